@@ -204,7 +204,7 @@ impl VxLogcatTimes {
 
 // LogCat2DltMsgIterator::get_apid_info_msg: the statements that build the control message announcing a tag's APID (R12: the iterator
 // reduced to the fields read here; the payload built in front of them is any byte vector - its length is 15 + the length of the tag)
-pub struct VxLogcatHdr { pub index: u32, pub ecu: DltChar4, pub ctid: DltChar4, pub htyp: u8, pub len_wo_payload: u16 }
+pub struct VxLogcatHdr { pub index: u32, pub ecu: DltChar4, pub ctid: DltChar4, pub htyp: u8, pub len_wo_payload: u16, pub recorded_start_time_us: u64 }
 impl VxLogcatHdr {
     pub fn timestamp_dms_from(&self, timestamp_us: u64) -> (r: u32) { (timestamp_us / 100) as u32 }
 }
@@ -280,6 +280,39 @@ pub fn vx_apid_candidate(trimmed_tag: &str, iteration: u16) -> (r: DltChar4) { u
 //@|    ensures true, // O:asc.apid.numbering_ends (termination and no counter overflow for every content of the map)
 //@   loop 1
 //@|    decreases 0xFFFF - iteration, // O:asc.apid.numbering_ends (whatever bound below the counter's range the loop gives itself)
+//@ end
+
+// LogCat2DltMsgIterator::next: the statements that build the log message of a monotonic-format line and of a threadtime line. The text
+// of the message is what follows the time stamp and one white-space character in the matched line (entry fact: a capture ends on a
+// character boundary inside the line; `\s` of the regexes matches multi-byte white space as well)
+#[verifier::external_body]
+pub fn vx_str_to_owned(s: &str) -> (r: String) { s.to_owned() }
+// skip_first_char (src/utils/logcat2dltmsgiterator.rs): `chars()`, `next()`, `as_str()` - std's char iterator, not under contract
+#[verifier::external_body]
+pub fn skip_first_char<'a>(s: &'a str) -> (r: &'a str) { unimplemented!() }
+//@ extract src/dlt/mod.rs enum DltMessageLogType
+//@ end
+//@ extract src/utils/logcat2dltmsgiterator.rs region `let index = self.index;` .. `let log_msg = DltMessage {` in <Iterator for LogCat2DltMsgIterator>::next
+//@   sig pub fn logcat_monotonic_msg(vx_self: &mut VxLogcatHdr, cap_str: &str, loc_timestamp: (usize, usize), log_level: DltMessageLogType, apid: DltChar4, timestamp_us: u64) -> (r: DltMessage)
+//@   tail `log_msg`
+//@   sub R12 `self` => `vx_self` *
+//@   sub R11 `cap_str[loc_timestamp.1 + 1..].to_owned()` => `vx_str_to_owned(vx_str_from_b(cap_str, loc_timestamp.1 + 1))` ?
+//@   sub R11 `skip_first_char(&cap_str[loc_timestamp.1..]).to_owned()` => `vx_str_to_owned(skip_first_char(vx_str_from_b(cap_str, loc_timestamp.1)))` ?
+//@   spec
+//@|    requires loc_timestamp.1 < blen(cap_str), blen(cap_str) <= isize::MAX, boundary(cap_str, loc_timestamp.1 as int), // the capture is followed by at least one more character (`\s+`)
+//@|        old(vx_self).index < u32::MAX, // fewer than 2^32 messages (ASSUMED)
+//@|    ensures true, // O:asc.logcat.monotonic_msg_no_panic
+//@ end
+//@ extract src/utils/logcat2dltmsgiterator.rs region `>>let apid_info_msg = if new_apid { self.get_apid_info_msg(&apid, tag, reception_time_us` .. `let log_msg = DltMessage {` in <Iterator for LogCat2DltMsgIterator>::next
+//@   sig pub fn logcat_threadtime_msg(vx_self: &mut VxLogcatHdr, cap_str: &str, loc_timestamp: (usize, usize), log_level: DltMessageLogType, apid: DltChar4, timestamp_us: u64, reception_time_us: u64) -> (r: DltMessage)
+//@   tail `log_msg`
+//@   sub R12 `self` => `vx_self` *
+//@   sub R11 `cap_str[loc_timestamp.1 + 1..].to_owned()` => `vx_str_to_owned(vx_str_from_b(cap_str, loc_timestamp.1 + 1))` ?
+//@   sub R11 `skip_first_char(&cap_str[loc_timestamp.1..]).to_owned()` => `vx_str_to_owned(skip_first_char(vx_str_from_b(cap_str, loc_timestamp.1)))` ?
+//@   spec
+//@|    requires loc_timestamp.1 < blen(cap_str), blen(cap_str) <= isize::MAX, boundary(cap_str, loc_timestamp.1 as int),
+//@|        old(vx_self).index < u32::MAX, // fewer than 2^32 messages (ASSUMED)
+//@|    ensures true, // O:asc.logcat.threadtime_msg_no_panic
 //@ end
 
 // the same statements in GenLog2DltMsgIterator::get_apid_info_msg
